@@ -34,6 +34,15 @@ def valid(rpc):
             and sv.mapper.local_identifier in sv.state_modes.instance_state_modes)
 
 
+def apps_valid(context):
+    """object invariants of the applications held by the Context: ApplicationStatus.__init__ always sets `rules`
+    (the class-level default None is never observable), and an application never stays in the Context without a
+    process (Context.setdefault_process adds the first one at creation, on_process_removed_event deletes an emptied
+    application: 'an update of numprocs cannot leave the application empty ... a remove_group can')"""
+    apps = context.applications
+    return forall(str, lambda n: implies(n in apps, apps[n].rules is not None))
+
+
 def fsm_state(rpc):
     """the gate input (anchor: fsm.state, rpcinterface.py _check_state), over raw fields"""
     sv = rpc.supvisors
@@ -196,3 +205,160 @@ class GetApplicationProcess:
         return (exc.code == Faults.BAD_NAME and no_effect()
                 and (names[0] not in apps
                      or (names[1] is not None and names[1] != '' and names[1] not in apps[names[0]].processes)))
+
+
+# ------------------------------------------------------------------------------------------ helpers: strategies
+def valid_strategy(strategy, klass):
+    """'as a string or as a value': a str that is the name of a member, or an int (not a bool) that is the value of a
+    member; anything else is an 'unknown strategy'"""
+    return ((type(strategy) is str and exists(klass, lambda m: m.name == strategy))
+            or (type(strategy) is int and exists(klass, lambda m: m.value == strategy)))
+
+
+def designates(strategy, member):
+    return ((type(strategy) is str and member.name == strategy)
+            or (type(strategy) is int and member.value == strategy))
+
+
+@contract('rpcinterface:RPCInterface._get_strategy', props=['C17'])
+class GetStrategy:
+    """'unknown strategies [raise] INCORRECT_PARAMETERS': member by name or by value, INCORRECT_PARAMETERS for unknown
+    strings, out-of-range ints and every other type (run once per parameter type and per enumeration)"""
+    raises = ('RPCError',)
+    type_variants = [{'strategy': 'str', 'enum_klass': 'class:StartingStrategies'},
+                     {'strategy': 'int', 'enum_klass': 'class:StartingStrategies'},
+                     {'strategy': 'bool', 'enum_klass': 'class:StartingStrategies'},
+                     {'strategy': 'float', 'enum_klass': 'class:StartingStrategies'},
+                     {'strategy': 'List[str]', 'enum_klass': 'class:StartingStrategies'},
+                     {'strategy': 'str', 'enum_klass': 'class:ConciliationStrategies'},
+                     {'strategy': 'int', 'enum_klass': 'class:ConciliationStrategies'},
+                     {'strategy': 'bool', 'enum_klass': 'class:ConciliationStrategies'},
+                     {'strategy': 'float', 'enum_klass': 'class:ConciliationStrategies'},
+                     {'strategy': 'List[str]', 'enum_klass': 'class:ConciliationStrategies'}]
+
+    def modifies(self):
+        return []
+
+    def post_member(self, strategy, enum_klass, result):
+        return isinstance(result, enum_klass) and designates(strategy, result)
+
+    def exc_RPCError_incorrect_parameters(self, strategy, enum_klass, exc):
+        return (not valid_strategy(strategy, enum_klass) and exc.code == Faults.INCORRECT_PARAMETERS
+                and no_effect())
+
+
+@contract('rpcinterface:RPCInterface._get_starting_strategy', props=['C17'])
+class GetStartingStrategy:
+    """'unknown strategies [raise] INCORRECT_PARAMETERS' (StartingStrategies)"""
+    raises = ('RPCError',)
+    type_variants = [{'strategy': 'str'}, {'strategy': 'int'}, {'strategy': 'bool'}, {'strategy': 'float'},
+                     {'strategy': 'List[str]'}]
+    inline = ['rpcinterface:RPCInterface._get_strategy']
+
+    def modifies(self):
+        return []
+
+    def post_member(self, strategy, result):
+        return designates(strategy, result)
+
+    def exc_RPCError_incorrect_parameters(self, strategy, exc):
+        return (not valid_strategy(strategy, StartingStrategies) and exc.code == Faults.INCORRECT_PARAMETERS
+                and no_effect())
+
+
+@contract('rpcinterface:RPCInterface._get_conciliation_strategy', props=['C17'])
+class GetConciliationStrategy:
+    """'unknown strategies [raise] INCORRECT_PARAMETERS' (ConciliationStrategies)"""
+    raises = ('RPCError',)
+    type_variants = [{'strategy': 'str'}, {'strategy': 'int'}, {'strategy': 'bool'}, {'strategy': 'float'},
+                     {'strategy': 'List[str]'}]
+    inline = ['rpcinterface:RPCInterface._get_strategy']
+
+    def modifies(self):
+        return []
+
+    def post_member(self, strategy, result):
+        return designates(strategy, result)
+
+    def exc_RPCError_incorrect_parameters(self, strategy, exc):
+        return (not valid_strategy(strategy, ConciliationStrategies) and exc.code == Faults.INCORRECT_PARAMETERS
+                and no_effect())
+
+
+# ------------------------------------------------------------------------------------------ callees verified here
+@contract('context:Context.get_managed_applications', props=['C17'])
+class GetManagedApplications:
+    """'unmanaged applications [raise] NOT_MANAGED': the managed applications are the known applications whose rules
+    are flagged managed (i.e. that are described in the rules file)"""
+    raises = ()
+
+    def modifies(self):
+        return []
+
+    def pre_valid(self):
+        return apps_valid(self)
+
+    def post_definition(self, result):
+        apps = self.applications
+        return forall(str, lambda n: (n in result) == (n in apps and apps[n].rules.managed))
+
+    def post_same_objects(self, result):
+        return forall(str, lambda n: implies(n in result, result[n] is self.applications[n]))
+
+    def post_fresh(self, result):
+        return was_fresh(result)
+
+
+# ------------------------------------------------------------------------------------------ commands
+def cmd_valid(rpc):
+    return valid(rpc) and apps_valid(rpc.supvisors.context)
+
+
+def known_app(rpc, application_name):
+    return application_name in rpc.supvisors.context.applications
+
+
+def managed_app(rpc, application_name):
+    apps = rpc.supvisors.context.applications
+    return application_name in apps and apps[application_name].rules.managed
+
+
+@contract('rpcinterface:RPCInterface.start_application', props=['C17'])
+class StartApplication:
+    """'start ... in OPERATION only ... otherwise raises BAD_SUPVISORS_STATE without any effect. Unknown application
+    ... names raise BAD_NAME, unknown strategies INCORRECT_PARAMETERS, unmanaged applications NOT_MANAGED, and a
+    rejected request emits no start, stop or state change'"""
+    raises = ('RPCError',)
+    types = {'wait': 'bool'}
+    type_variants = [{'strategy': 'str'}, {'strategy': 'int'}, {'strategy': 'bool'}, {'strategy': 'float'},
+                     {'strategy': 'List[str]'}]
+
+    def pre_valid(self):
+        return cmd_valid(self)
+
+    def post_served_only_when_acceptable(self, strategy, application_name, old):
+        return (fsm_state(old.self) == SupvisorsStates.OPERATION and valid_strategy(strategy, StartingStrategies)
+                and managed_app(old.self, application_name))
+
+    def post_start_requested(self, strategy, application_name, old):
+        return (count_effects('starter.start_application') == 1
+                and designates(strategy, effect_at('starter.start_application', 0)[0])
+                and effect_at('starter.start_application', 0)[1] is old.self.supvisors.context.applications[application_name]
+                and no_effect('stopper.stop_application', 'stopper.stop_process', 'fsm.set_state', 'fsm.next'))
+
+    def exc_RPCError_bad_state(self, exc, old):
+        return (exc.code == BAD_STATE) == (fsm_state(old.self) != SupvisorsStates.OPERATION)
+
+    def exc_RPCError_codes(self, strategy, application_name, exc, old):
+        return (implies(exc.code == Faults.INCORRECT_PARAMETERS, not valid_strategy(strategy, StartingStrategies))
+                and implies(exc.code == Faults.BAD_NAME, not known_app(old.self, application_name))
+                and implies(exc.code == NOT_MANAGED, known_app(old.self, application_name)
+                            and not managed_app(old.self, application_name)))
+
+    def exc_RPCError_invalid_parameters(self, strategy, application_name, exc, old):
+        return implies(fsm_state(old.self) == SupvisorsStates.OPERATION
+                       and not (valid_strategy(strategy, StartingStrategies) and managed_app(old.self, application_name)),
+                       exc.code in (Faults.INCORRECT_PARAMETERS, Faults.BAD_NAME, NOT_MANAGED))
+
+    def exc_RPCError_rejected_cleanly(self, exc):
+        return rejected_cleanly(exc)
